@@ -112,7 +112,9 @@ impl NameMap {
             !self@.contains_key(k@) ==> r is None,
     { unimplemented!() }
 }
-pub struct DnsRegistry { pub name_changes: NameMap, pub rest: u8 }
+#[verifier::external_body]
+pub struct ProbeMap { x: u8 }
+pub struct DnsRegistry { pub name_changes: NameMap, pub probing: ProbeMap, pub rest: u8 }
 pub open spec fn resolved(m: NameMap, name: Seq<char>) -> Seq<char> {
     if m@.contains_key(name) { m@[name]@ } else { name }
 }
